@@ -23,6 +23,8 @@ const preludeInt = `
 (declare-fun int_shl (Int Int) Int)
 (declare-fun int_shr (Int Int) Int)
 (define-fun time_zero () Int 0)
+(declare-fun sidx (Int Int) Int)
+(assert (forall ((a Int) (b Int)) (! (= (sidx a b) (+ a b)) :pattern ((sidx a b)))))
 `
 
 func (w *World) queryText(o *Obligation, wantModel bool) string {
@@ -54,7 +56,10 @@ func (w *World) queryText(o *Obligation, wantModel bool) string {
 	for _, d := range w.constDecls {
 		sb.WriteString(d + "\n")
 	}
-	for _, f := range w.facts[:o.NFacts] {
+	for i, f := range w.facts[:o.NFacts] {
+		if o.Anc != nil && w.factBlock[i] >= 0 && !o.Anc[w.factBlock[i]] {
+			continue
+		}
 		sb.WriteString("(assert " + f + ")\n")
 	}
 	sb.WriteString("(assert " + o.Reach + ")\n")
